@@ -117,6 +117,9 @@ def export_to_yaml(statechart: Statechart, filepath: str = None) -> str:
     # Block style only: in flow style, some scalars (e.g. starting with "?" or ":") are written
     # without quotes and cannot be loaded back
     yml.default_flow_style = False
+    # No line folding: long scalars that contain tabs or several consecutive spaces are not
+    # always folded in a way that gives back the same text when the document is loaded
+    yml.width = 2 ** 31
     yml.dump(export_to_dict(statechart), output)
 
     if filepath:
